@@ -66,6 +66,10 @@ def cases() -> Any:
         # the first two messages carry the SAME task id (a redelivery / a re-kick with with_task_id): still two executions,
         # each with the Context of its own message
         "same_id": st.sampled_from([False, False, True]),
+        # every message carries a nested mutable argument for an un-annotated parameter which its execution changes in place
+        "bag": st.sampled_from([False, True]),
+        # the second delivery is a byte-identical copy of the first one (a redelivered message)
+        "dup_payload": st.sampled_from([False, False, True]),
         # every message carries a label `prio`: typed (int, with a labels_types entry) as taskiq's own client sends it, or - for
         # the messages flagged here - as a plain string from a producer that announces no label types at all (labels_types null)
         "untyped": st.one_of(st.none(), st.none(), st.lists(st.booleans(), min_size=4, max_size=4)),
@@ -113,6 +117,7 @@ def run_case(c: Dict[str, Any]) -> Outcome:
     echoes: Dict[Any, List[Any]] = {}
     boxes: Dict[Any, List[Any]] = {}
     seen_labels: Dict[Any, List[Any]] = {}
+    bags: Dict[Any, List[Any]] = {}
     cur: Dict[Any, int] = {}
     spans: Dict[int, List[float]] = {}
 
@@ -124,6 +129,8 @@ def run_case(c: Dict[str, Any]) -> Outcome:
             boxes.setdefault(k, []).append(payload[0])
         elif kind == "labels":
             seen_labels.setdefault(k, []).append(payload[0])
+        elif kind == "bag":
+            bags.setdefault(k, []).append(payload[0])
 
     res: Dict[str, Any] = {}
 
@@ -137,7 +144,15 @@ def run_case(c: Dict[str, Any]) -> Outcome:
             return {"who": f"w{k}"}
         return {"who": f"w{k}", "prio": str(k) if is_untyped(k) else k}
 
+    def dup(k: int) -> bool:
+        return bool(c.get("dup_payload")) and k == 1 and not c.get("requeue_first") and not (c.get("to_plain") or [False] * 4)[1]
+
+    def src(k: int) -> int:
+        return 0 if dup(k) else k      # whose content the delivery carries
+
     def tid_of(k: int) -> str:
+        if dup(k):
+            return "id0"
         return "id0" if c.get("same_id") and k == 1 else f"id{k}"
 
     async def main() -> None:
@@ -147,7 +162,7 @@ def run_case(c: Dict[str, Any]) -> Outcome:
         b.result_backend = rb
         if c.get("custom_ctx"):
             b.add_dependency_context({Marker: Marker()})
-        mod, task, src = dg.build(nodes, tdeps, {"kind": "ret", "replacements": c.get("overrides") or [], "box": c.get("box"), "no_task_ctx": c.get("no_task_ctx"),
+        mod, task, src = dg.build(nodes, tdeps, {"kind": "ret", "replacements": c.get("overrides") or [], "box": c.get("box"), "bag": c.get("bag"), "no_task_ctx": c.get("no_task_ctx"),
                                                        "requeue_first": c.get("requeue_first") and c.get("no_labels")}, LOG)
         for ri, rep in enumerate(c.get("overrides") or []):
             b.dependency_overrides[getattr(mod, f"n{rep['target']}")] = getattr(mod, f"r{ri}")
@@ -155,17 +170,23 @@ def run_case(c: Dict[str, Any]) -> Outcome:
         b.register_task(mod.plain, task_name="plain")
         r = Receiver(b, executor=wh.Inline(), max_async_tasks=10, run_startup=False)
 
-        async def one(k: int, start: float, slp: float) -> None:
-            if start:
-                await asyncio.sleep(start)
-            EXEC.set(k)
+        def payload(k: int, slp: float) -> Any:
             plain = bool((c.get("to_plain") or [False] * 4)[k % 4]) and k > 0 and len(msgs) > 1 and c.get("no_task_ctx")
             kw = {"box": "1,2"} if c.get("box") and not plain else {}     # the same wire value in every message
+            if c.get("bag") and not plain:
+                kw["bag"] = {"items": [1, 2]}
             own_labels = labels_of(k)
             tm_ = AsyncKicker("plain" if plain else "t", b, dict(own_labels)).with_task_id(tid_of(k))._prepare_message(k, slp, **kw)
             if is_untyped(k):
                 tm_.labels, tm_.labels_types = dict(own_labels), None
-            m = b.formatter.dumps(tm_).message
+            return b.formatter.dumps(tm_).message
+
+        async def one(k: int, start: float, slp: float) -> None:
+            if start:
+                await asyncio.sleep(start)
+            EXEC.set(k)
+            # a redelivery carries exactly the bytes of message 0
+            m = payload(0, msgs[0][1]) if dup(k) else payload(k, slp)
             spans[k] = [loop.time(), None]
             await r.callback(m)
             spans[k][1] = loop.time()
@@ -196,16 +217,21 @@ def run_case(c: Dict[str, Any]) -> Outcome:
         for (node_, t, tid, a0, who) in ev:
             if k is None:
                 out.add("C06.a", f"node {node_} ran outside any message's callback task")
-            elif (tid, a0, who) != (tid_of(k), k, None if c.get("no_labels") else f"w{k}"):
+            elif (tid, a0, who) != (tid_of(k), src(k), None if c.get("no_labels") else f"w{src(k)}"):
                 out.add("C06.a", f"while processing message #{k} (task id {tid_of(k)}, arg {k}, label w{k}) at t={t}, node {node_} observed Context of "
                                  f"message {tid!r} (arg {a0!r}, label {who!r})")
     for k, seen_boxes in sorted(boxes.items(), key=lambda kv: str(kv[0])):
         for bx in seen_boxes:
-            if bx != [1, 2, k]:
+            if bx != [1, 2, src(k)]:
                 out.add("C06.a", f"execution of message id{k} appended its own id to its list argument (sent in the short form '1,2') and later "
                                  f"observed {bx}: the argument object is shared with another execution")
+    for k, bl in sorted(bags.items(), key=lambda kv: str(kv[0])):
+        for bg in bl:
+            if bg != [1, 2, "x"]:
+                out.add("C06.a", f"execution #{k} appended one element to the list inside its own argument {{'items': [1, 2]}} and later observed {bg}: "
+                                 f"the argument object is shared with another execution" + (" (the two deliveries are byte-identical)" if c.get("dup_payload") else ""))
     for k, ls in sorted(seen_labels.items(), key=lambda kv: str(kv[0])):
-        want = labels_of(k)
+        want = labels_of(src(k))
         for got in ls:
             if got != want or any(type(got[x]) is not type(want[x]) for x in want):
                 out.add("C06.a", f"execution of message id{k} (sent with labels {want}) observed labels {got} through its Context")
@@ -217,7 +243,7 @@ def run_case(c: Dict[str, Any]) -> Outcome:
         if k == 0 and c.get("requeue_first") and c.get("no_labels") and not c.get("no_task_ctx"):
             want_by_id.setdefault(tid_of(k), [])
             continue      # the requeueing execution signals no-result
-        want_by_id.setdefault(tid_of(k), []).append(k)
+        want_by_id.setdefault(tid_of(k), []).append(src(k))
     for tid, want_vals in sorted(want_by_id.items()):
         got = stored.get(tid, [])
         if len(got) != len(want_vals):
@@ -233,7 +259,7 @@ def run_case(c: Dict[str, Any]) -> Outcome:
             if not uc and (nodes[j]["ctx"] or any(nodes[d]["ctx"] for d in dg.descendants(nodes, j))):
                 risky = True
     out.nontrivial = bool(overlap and risky)
-    out.classes = [c_ for c_, f in (("overlap", overlap), ("uncached_ctx_reader", risky), ("custom_ctx", c.get("custom_ctx")), ("dependency_overrides", bool(c.get("overrides"))), ("context_only_via_dependencies", bool(c.get("no_task_ctx"))), ("label_less_messages", bool(c.get("no_labels"))), ("two_messages_same_task_id", bool(c.get("same_id"))), ("typed_and_untyped_label_messages", bool(c.get("untyped")) and len({is_untyped(k) for k in range(len(msgs))}) == 2),
+    out.classes = [c_ for c_, f in (("overlap", overlap), ("uncached_ctx_reader", risky), ("custom_ctx", c.get("custom_ctx")), ("dependency_overrides", bool(c.get("overrides"))), ("context_only_via_dependencies", bool(c.get("no_task_ctx"))), ("label_less_messages", bool(c.get("no_labels"))), ("two_messages_same_task_id", bool(c.get("same_id"))), ("byte_identical_redelivery", bool(c.get("dup_payload"))), ("nested_mutable_argument", bool(c.get("bag"))), ("typed_and_untyped_label_messages", bool(c.get("untyped")) and len({is_untyped(k) for k in range(len(msgs))}) == 2),
                                     ("generator_style", any(nodes[i]["style"] in dg.YIELDING for i in reach))) if f]
     out.trace = {"echoes": {str(k): [list(e[:3]) for e in v[:6]] for k, v in echoes.items()}, "spans": {str(k): v for k, v in spans.items()}}
     return out
